@@ -595,3 +595,19 @@ def ulp_distance(a, b):
         q = q if q >= 0 else -(q & 0x7FFFFFFFFFFFFFFF)
         d = max(d, abs(p - q))
     return d
+
+
+def scale_label(sc):
+    """canonical short name of one scale for violation keys: type, plus its input sources when
+    they are not the raw data: linear, advancedapi[0], add[raw,1]"""
+    t = sc["t"].lower()
+    if sc["t"] == "Daqmx":
+        return "scaler%d" % sc["id"]
+    if "src" in sc:
+        return t if sc["src"] == RAW else "%s[%d]" % (t, sc["src"])
+    l, r = ("raw" if x == RAW else str(x) for x in (sc["l"], sc["r"]))
+    return "%s[%s,%s]" % (t, l, r)
+
+
+def graph_label(graph):
+    return "+".join(scale_label(sc) for sc in graph) if graph else "unscaled"
